@@ -210,7 +210,9 @@ class UTPM(Ring, RawAlgorithmsMixIn):
         if not isinstance(shp, tuple): shp = (shp,)
         if not isinstance(x_shp, tuple): x_shp = (x_shp,)
 
-        y = UTPM(numpy.zeros((D,P) + x_shp + shp, dtype=xr[0].data.dtype))
+        # the common type of all entries (a complex entry after a real one keeps its imaginary part)
+        dtype = numpy.result_type(*[xi.data.dtype if isinstance(xi, UTPM) else numpy.asarray(xi).dtype for xi in xr])
+        y = UTPM(numpy.zeros((D,P) + x_shp + shp, dtype=dtype))
 
         yr = UTPM( y.data.reshape((D,P) + (numpy.prod(x_shp, dtype=int),) + shp))
 
